@@ -45,35 +45,34 @@ Theorem C02_mutating_algorithms_in_range :
   (forall (A : Type) (l : list A), returns_ok (reverse_copy l)).
 Proof.
   split; [|split; [|split; [|split; [|split; [|split; [|split; [|split; [|split]]]]]]]].
-  - intros A l f m n H1 H2 H3. exact (ok_returns_ok _ _ _ (C06a.Properties.C06_rotate_correct A l f m n H1 H2 H3)).
+  - intros A l f m n H1 H2 H3. (pose proof (C06a.Properties.C06_rotate_correct A l f m n H1 H2 H3) as HH; ok_from HH).
   - intros A l f n H1 H2. split.
-    + exact (ok_returns_ok _ _ _ (C06a.Properties_p1.C06_reverse_ra_correct A l f n H1 H2)).
-    + exact (ok_returns_ok _ _ _ (C06a.Properties_p1.C06_reverse_bidi_correct A l f n H1 H2)).
+    + (pose proof (C06a.Properties_p1.C06_reverse_ra_correct A l f n H1 H2) as HH; ok_from HH).
+    + (pose proof (C06a.Properties_p1.C06_reverse_bidi_correct A l f n H1 H2) as HH; ok_from HH).
   - intros A p l. split; [|split].
-    + exact (ok_returns_ok _ _ _ (C06a.Properties_p1.C06_stable_partition_correct A p l)).
-    + destruct (C06a.Properties_p1.C06_remove_if_correct A p l) as (l' & E & _). exact (ok_returns_ok _ _ _ E).
-    + destruct (C06a.Properties_p1.C06_partition_correct A p l) as (l' & E & _). exact (ok_returns_ok _ _ _ E).
-  - intros A p fuel P M T H. exact (ok_returns_ok _ _ _ (C06a.Properties_p1.C06_stable_partition_subrange A p fuel P M T H)).
-  - intros A eqv R S T l. destruct (C06a.Properties_p1.C06_unique_correct A eqv R S T l) as (l' & E & _).
-    exact (ok_returns_ok _ _ _ E).
+    + (pose proof (C06a.Properties_p1.C06_stable_partition_correct A p l) as HH; ok_from HH).
+    + pose proof (C06a.Properties_p1.C06_remove_if_correct A p l) as HH. ok_from HH.
+    + pose proof (C06a.Properties_p1.C06_partition_correct A p l) as HH. ok_from HH.
+  - intros A p fuel P M T H. (pose proof (C06a.Properties_p1.C06_stable_partition_subrange A p fuel P M T H) as HH; ok_from HH).
+  - intros A eqv R S T l. pose proof (C06a.Properties_p1.C06_unique_correct A eqv R S T l) as HH. ok_from HH.
   - intros A l n. split.
-    + destruct (Z_le_gt_dec n 0) as [L|G]; [exact (ok_returns_ok _ _ _ (C06a.Properties_p1.C06_shift_left_nonpositive A l n L))|].
+    + destruct (Z_le_gt_dec n 0) as [L|G]; [(pose proof (C06a.Properties_p1.C06_shift_left_nonpositive A l n L) as HH; ok_from HH)|].
       destruct (Z_lt_le_dec n (Z.of_nat (length l))) as [L|G'].
-      * destruct (C06a.Properties_p1.C06_shift_left_correct A l n ltac:(lia)) as (l' & E & _). exact (ok_returns_ok _ _ _ E).
-      * exact (ok_returns_ok _ _ _ (C06a.Properties_p1.C06_shift_left_too_far A l n ltac:(lia) G')).
-    + destruct (Z_le_gt_dec n 0) as [L|G]; [exact (ok_returns_ok _ _ _ (C06a.Properties_p1.C06_shift_right_nonpositive A l n L))|].
+      * pose proof (C06a.Properties_p1.C06_shift_left_correct A l n ltac:(lia)) as HH. ok_from HH.
+      * (pose proof (C06a.Properties_p1.C06_shift_left_too_far A l n ltac:(lia) G') as HH; ok_from HH).
+    + destruct (Z_le_gt_dec n 0) as [L|G]; [(pose proof (C06a.Properties_p1.C06_shift_right_nonpositive A l n L) as HH; ok_from HH)|].
       destruct (Z_lt_le_dec n (Z.of_nat (length l))) as [L|G'].
-      * destruct (C06a.Properties_p1.C06_shift_right_correct A l n ltac:(lia)) as (l' & E & _). exact (ok_returns_ok _ _ _ E).
-      * exact (ok_returns_ok _ _ _ (C06a.Properties_p1.C06_shift_right_too_far A l n ltac:(lia) G')).
-  - intros A l1 l2. split; [intros H; exact (ok_returns_ok _ _ _ (C06a.Properties_p1.C06_swap_ranges_correct A l1 l2 H))
+      * pose proof (C06a.Properties_p1.C06_shift_right_correct A l n ltac:(lia)) as HH. ok_from HH.
+      * (pose proof (C06a.Properties_p1.C06_shift_right_too_far A l n ltac:(lia) G') as HH; ok_from HH).
+  - intros A l1 l2. split; [intros H; (pose proof (C06a.Properties_p1.C06_swap_ranges_correct A l1 l2 H) as HH; ok_from HH)
                            |exact (C06a.Properties_p1.C06_swap_ranges_short_second_range A l1 l2)].
   - intros A l n. split; [|exact (C06a.Properties_p1.C06_copy_n_overrun A l n)].
     intros H. destruct (Z_lt_le_dec n 0) as [L|G].
-    + exact (ok_returns_ok _ _ _ (C06a.Properties_p1.C06_copy_n_negative A l n L)).
-    + exact (ok_returns_ok _ _ _ (C06a.Properties_p1.C06_copy_n_correct A l n (conj G H))).
-  - intros A f l1 l2. split; [intros H; exact (ok_returns_ok _ _ _ (C06a.Properties_p1.C06_transform2_correct A f l1 l2 H))
+    + (pose proof (C06a.Properties_p1.C06_copy_n_negative A l n L) as HH; ok_from HH).
+    + (pose proof (C06a.Properties_p1.C06_copy_n_correct A l n (conj G H)) as HH; ok_from HH).
+  - intros A f l1 l2. split; [intros H; (pose proof (C06a.Properties_p1.C06_transform2_correct A f l1 l2 H) as HH; ok_from HH)
                              |exact (C06a.Properties_p1.C06_transform2_short_second_range A f l1 l2)].
-  - intros A l. exact (ok_returns_ok _ _ _ (C06a.Properties_p1.C06_reverse_copy_correct A l)).
+  - intros A l. (pose proof (C06a.Properties_p1.C06_reverse_copy_correct A l) as HH; ok_from HH).
 Qed.
 Print Assumptions C02_mutating_algorithms_in_range.
 
@@ -92,12 +91,12 @@ Theorem C02_sorting_in_range : forall (A : Type) (lt : A -> A -> bool),
 Proof.
   intros A lt H1 H2 H3. split.
   - intros l. split; [|split; [|split; [|split]]].
-    + exact (ok_returns_ok _ _ _ (C06a.Properties_p2.C06_insertion_sort_correct A lt H1 H2 H3 l)).
-    + exact (ok_returns_ok _ _ _ (C06a.Properties_p2.C06_gnome_sort_correct A lt H1 H2 H3 l)).
-    + exact (ok_returns_ok _ _ _ (C06a.Properties_p2.C06_merge_sort_correct A lt H1 H2 H3 l)).
-    + destruct (C06a.Properties_p2.C06_bubble_sort_sorts A lt H1 H2 H3 l) as (l' & E & _). exact (ok_returns_ok _ _ _ E).
-    + destruct (C06a.Properties_p2.C06_exchange_sort_sorts A lt H1 H2 H3 l) as (l' & E & _). exact (ok_returns_ok _ _ _ E).
-  - intros P l1 l2 T S. exact (ok_returns_ok _ _ _ (C06a.Properties_p2.C06_inplace_merge_in_range A lt P l1 l2 T S)).
+    + (pose proof (C06a.Properties_p2.C06_insertion_sort_correct A lt H1 H2 H3 l) as HH; ok_from HH).
+    + (pose proof (C06a.Properties_p2.C06_gnome_sort_correct A lt H1 H2 H3 l) as HH; ok_from HH).
+    + (pose proof (C06a.Properties_p2.C06_merge_sort_correct A lt H1 H2 H3 l) as HH; ok_from HH).
+    + pose proof (C06a.Properties_p2.C06_bubble_sort_sorts A lt H1 H2 H3 l) as HH. ok_from HH.
+    + pose proof (C06a.Properties_p2.C06_exchange_sort_sorts A lt H1 H2 H3 l) as HH. ok_from HH.
+  - intros P l1 l2 T S. (pose proof (C06a.Properties_p2.C06_inplace_merge_in_range A lt P l1 l2 T S) as HH; ok_from HH).
 Qed.
 Print Assumptions C02_sorting_in_range.
 End Mut.
@@ -127,22 +126,22 @@ Theorem C02_searching_algorithms_in_range :
      returns_ok (inner_product_m op1 op2 l1 l2 init)).
 Proof.
   split; [|split; [|split; [|split; [|split; [|split]]]]].
-  - intros A St f s l n H. exact (ok_returns_ok _ _ _ (C06b.Properties.C06b_for_each_n A St f s l n H)).
+  - intros A St f s l n H. (pose proof (C06b.Properties.C06b_for_each_n A St f s l n H) as HH; ok_from HH).
   - intros A pred l1 l2 H. split.
-    + exact (ok_returns_ok _ _ _ (C06b.Properties.C06b_mismatch3 A pred l1 l2 H)).
-    + exact (ok_returns_ok _ _ _ (C06b.Properties.C06b_equal3 A pred l1 l2 H)).
-  - intros A ra pred l1 l2. exact (ok_returns_ok _ _ _ (C06b.Properties.C06b_equal4 A ra pred l1 l2)).
-  - intros A pred l s. exact (ok_returns_ok _ _ _ (C06b.Properties.C06b_find_end A pred l s)).
+    + (pose proof (C06b.Properties.C06b_mismatch3 A pred l1 l2 H) as HH; ok_from HH).
+    + (pose proof (C06b.Properties.C06b_equal3 A pred l1 l2 H) as HH; ok_from HH).
+  - intros A ra pred l1 l2. (pose proof (C06b.Properties.C06b_equal4 A ra pred l1 l2) as HH; ok_from HH).
+  - intros A pred l s. (pose proof (C06b.Properties.C06b_find_end A pred l s) as HH; ok_from HH).
   - intros A lt l v. split; [|split].
-    + intros H. exact (ok_returns_ok _ _ _ (C06b.Properties.C06b_lower_bound A lt l v H)).
-    + intros H. exact (ok_returns_ok _ _ _ (C06b.Properties.C06b_upper_bound A lt l v H)).
+    + intros H. (pose proof (C06b.Properties.C06b_lower_bound A lt l v H) as HH; ok_from HH).
+    + intros H. (pose proof (C06b.Properties.C06b_upper_bound A lt l v H) as HH; ok_from HH).
     + intros H1 H2. split.
-      * exact (ok_returns_ok _ _ _ (C06b.Properties.C06b_equal_range A lt l v H1 H2)).
-      * exact (ok_returns_ok _ _ _ (C06b.Properties.C06b_binary_search A lt l v H1 H2)).
+      * (pose proof (C06b.Properties.C06b_equal_range A lt l v H1 H2) as HH; ok_from HH).
+      * (pose proof (C06b.Properties.C06b_binary_search A lt l v H1 H2) as HH; ok_from HH).
   - intros A eqb He l1 l2. split.
-    + exact (ok_returns_ok _ _ _ (C06b.Properties.C06b_is_permutation4_counts A eqb He l1 l2)).
-    + intros H. destruct (C06b.Properties.C06b_is_permutation3 A eqb He l1 l2 H) as (b & E & _). exact (ok_returns_ok _ _ _ E).
-  - intros T U V W op1 op2 l1 l2 init H. exact (ok_returns_ok _ _ _ (C06b.Properties.C06b_inner_product T U V W op1 op2 l1 l2 init H)).
+    + (pose proof (C06b.Properties.C06b_is_permutation4_counts A eqb He l1 l2) as HH; ok_from HH).
+    + intros H. pose proof (C06b.Properties.C06b_is_permutation3 A eqb He l1 l2 H) as HH. ok_from HH.
+  - intros T U V W op1 op2 l1 l2 init H. (pose proof (C06b.Properties.C06b_inner_product T U V W op1 op2 l1 l2 init H) as HH; ok_from HH).
 Qed.
 Print Assumptions C02_searching_algorithms_in_range.
 End NonMut.
